@@ -307,6 +307,32 @@ def special_stream():
     return [{"recipe": r, "family": "special", "pool": "special", "dtype": "?", "nulls": "?", "null": None, "len": -1, "index": "None"} for r in rs]
 
 
+FRAME_COLS = {
+    "years": "['2019', '2020', '2021']", "days": "['2019-03-01', '2020-07-15', '2021-11-30']", "prices": "['19.5', '20.25', '21.75']",
+    "intstr": "['1', '2', '3']", "boolstr": "['True', 'False', 'True']", "text": "['a', 'b', 'c']", "intfloatstr": "['1.0', '2.0', '3.0']",
+    "ynstr": "['y', 'n', 'y']", "int": "[1, 2, 3]", "float": "[1.5, 2.5, 3.5]", "intfloat": "[1.0, 2.0, 3.0]", "bool": "[True, False, True]",
+    "int01": "[0, 1, 1]", "ts": "[pd.Timestamp('2020-01-01'), pd.Timestamp('2020-01-02'), pd.Timestamp('2020-01-03 05:00')]",
+    "urlstr": "['http://a.b/c', 'https://x.y/', 'http://a.b/d']", "pathstr": "['/a/b', '/c/d.txt', '/e']", "nullish": "['1', None, '3']",
+}
+
+
+def frame_stream():
+    """small multi-column frames: every ordered pair of column kinds (history between the columns of one call and between
+    consecutive calls on one typeset matters for anything that keeps state in the typeset or its graph)"""
+    out = []
+    ks = list(FRAME_COLS)
+    for a in ks:
+        for b in ks:
+            if a == b:
+                continue
+            r = "pd.DataFrame({'p': pd.Series(%s), 'q': pd.Series(%s)})" % (FRAME_COLS[a], FRAME_COLS[b])
+            out.append({"recipe": r, "family": "frame", "pool": a + "|" + b, "dtype": "frame", "nulls": "none", "null": None, "len": 3, "index": "None"})
+    for a, b, c in (("years", "days", "prices"), ("days", "prices", "years"), ("intstr", "years", "boolstr"), ("text", "int", "float")):
+        r = "pd.DataFrame({'p': pd.Series(%s), 'q': pd.Series(%s), 'r': pd.Series(%s)})" % (FRAME_COLS[a], FRAME_COLS[b], FRAME_COLS[c])
+        out.append({"recipe": r, "family": "frame", "pool": "|".join((a, b, c)), "dtype": "frame", "nulls": "none", "null": None, "len": 3, "index": "None"})
+    return out
+
+
 def long_stream(rnd, n):
     """>= 1000 rows: a majority family plus 0..3 contaminating values (or mostly missing)"""
     out = []
@@ -365,9 +391,11 @@ def materialise(item):
 def all_streams(rnd, tier, n_fam=None, n_mixed=None):
     n_fam = n_fam or (1500 if tier == "quick" else 20000)
     n_mixed = n_mixed or (500 if tier == "quick" else 6000)
-    return (bank_stream() + special_stream() + file_stream() + bx_stream(2, rnd, limit=2500 if tier == "quick" else 25000)
-            + family_stream(rnd, n_fam) + mixed_stream(rnd, n_mixed) + cross_stream(rnd, n_mixed * 2)
-            + long_stream(rnd, 40 if tier == "quick" else 600))
+    fam = family_stream(rnd, n_fam)
+    # cheap, targeted streams first: a search that is cut by its budget has then seen every kind of input
+    return (bank_stream() + special_stream() + file_stream() + long_stream(rnd, 40 if tier == "quick" else 600) + fam[:600]
+            + bx_stream(2, rnd, limit=2500 if tier == "quick" else 25000)
+            + fam[600:] + mixed_stream(rnd, n_mixed) + cross_stream(rnd, n_mixed * 2))
 
 
 def distribution(items):
